@@ -419,22 +419,80 @@ func runEmitShared(v SharedEmitVec) (diffs []string, hdrs []string, ids []string
 
 // ---------------------------------------------------------------- part (b)
 
+// VerIn is the version attribute of the specification: the parts between the separators,
+// every part a string over 0..9 = digits, 10 '+', 11 '-', 12 ' ', 13 a letter.
+type VerIn struct {
+	Present bool    `json:"present"`
+	Parts   [][]int `json:"parts"`
+}
+
+const verSyms = "0123456789+- a"
+
+func (v VerIn) String() string {
+	var parts []string
+	for _, p := range v.Parts {
+		var b strings.Builder
+		for _, c := range p {
+			b.WriteByte(verSyms[c])
+		}
+		parts = append(parts, b.String())
+	}
+	return strings.Join(parts, ".")
+}
+
 type HdrIn struct {
 	Role    string `json:"role"`
 	Framing string `json:"framing"`
 	Name    string `json:"name"`
 	XMLNS   string `json:"xmlns"`
-	Version string `json:"version"`
+	Version VerIn  `json:"version"`
 	ID      string `json:"id"`
 	To      string `json:"to"`
 	From    string `json:"from"`
+	Lang    string `json:"lang"`
 	Pre     string `json:"pre"`
 	Cond    string `json:"cond"`
+	// look-alikes of the attributes (same local name, not the attribute): "none",
+	// "foreign_before", "foreign_after" (x:id='..' in another namespace), "nsdecl" (xmlns:id='..')
+	Look map[string]string `json:"look"`
 }
 
 type HdrVec struct {
 	In  HdrIn  `json:"in"`
 	Exp string `json:"exp"`
+	// what an accepting session must have recovered, per attribute: "real" = the value of the
+	// real attribute, "notlook" = anything but the value of its look-alike
+	Info map[string]string `json:"info"`
+}
+
+const nsLook = "urn:vt:look"
+
+// the values look-alikes carry (never those of the real attributes)
+var lookValue = map[string]string{"id": "x9", "version": "1.0", "from": "admin@example.net", "to": "other.example.org", "lang": "de"}
+
+// realValue is the value of the real attribute where the header carries it. Valid addresses
+// are the ones the session expects (initiator: the peer is example.net and addresses
+// me@example.net), so that only the header checks decide.
+func realValue(h HdrIn, a string) string {
+	switch a {
+	case "id":
+		return "s1"
+	case "lang":
+		return "en"
+	case "version":
+		return h.Version.String()
+	case "to":
+		if h.Role == "recv" {
+			return "example.net"
+		}
+		return "me@example.net"
+	case "from":
+		if h.Role == "recv" {
+			return "me@example.net"
+		}
+		return "example.net"
+	}
+	return ""
 }
 
 func hdrBytes(h HdrIn) string {
@@ -468,36 +526,65 @@ func hdrBytes(h HdrIn) string {
 			s += " xmlns='urn:vt:other'"
 		}
 	}
-	switch h.Version {
-	case "absent":
-	case "garbage":
-		s += " version='one'"
-	default:
-		s += " version='" + h.Version + "'"
+	for _, l := range h.Look {
+		if strings.HasPrefix(l, "foreign") {
+			s += " xmlns:x='" + nsLook + "'"
+			break
+		}
+	}
+	// one attribute of the header's vocabulary with its look-alike around it
+	attr := func(a, real string) {
+		name := a
+		if a == "lang" {
+			name = "xml:lang"
+		}
+		switch h.Look[a] {
+		case "foreign_before":
+			s += " x:" + a + "='" + lookValue[a] + "'"
+		case "nsdecl":
+			s += " xmlns:" + a + "='" + lookValue[a] + "'"
+		}
+		if real != "\x00" {
+			s += " " + name + "='" + real + "'"
+		}
+		if h.Look[a] == "foreign_after" {
+			s += " x:" + a + "='" + lookValue[a] + "'"
+		}
+	}
+	const none = "\x00"
+	if h.Version.Present {
+		attr("version", h.Version.String())
+	} else {
+		attr("version", none)
 	}
 	switch h.ID {
 	case "empty":
-		s += " id=''"
+		attr("id", "")
 	case "set":
-		s += " id='s1'"
-	}
-	// valid addresses are the ones the session expects (initiator: the peer is example.net
-	// and addresses me@example.net), so that only the header checks decide
-	to, from := "me@example.net", "example.net"
-	if h.Role == "recv" {
-		to, from = "example.net", "me@example.net"
+		attr("id", realValue(h, "id"))
+	default:
+		attr("id", none)
 	}
 	switch h.To {
 	case "valid":
-		s += " to='" + to + "'"
+		attr("to", realValue(h, "to"))
 	case "invalid":
-		s += " to='@example.net'"
+		attr("to", "@example.net")
+	default:
+		attr("to", none)
 	}
 	switch h.From {
 	case "valid":
-		s += " from='" + from + "'"
+		attr("from", realValue(h, "from"))
 	case "invalid":
-		s += " from='@example.net'"
+		attr("from", "@example.net")
+	default:
+		attr("from", none)
+	}
+	if h.Lang == "set" {
+		attr("lang", realValue(h, "lang"))
+	} else {
+		attr("lang", none)
 	}
 	if h.Name == "open" {
 		return s + "/>"
@@ -505,8 +592,11 @@ func hdrBytes(h HdrIn) string {
 	return s + ">"
 }
 
-// runAccept returns the observed verdict: "accept", "reject", "streamerror:<cond>".
-func runAccept(h HdrIn) (verdict string, detail string) {
+// runAccept returns the observed verdict: "accept", "reject", "streamerror:<cond>", and - for
+// an accepted header - the differences between what the session recovered and what the
+// specification says it recovers.
+func runAccept(v HdrVec) (verdict string, detail string, infoDiffs []string) {
+	h := v.In
 	c := vt.NewConn()
 	reads := 0
 	bytes := hdrBytes(h)
@@ -528,28 +618,64 @@ func runAccept(h HdrIn) (verdict string, detail string) {
 	}
 	var err error
 	var p interface{}
+	var s *xmpp.Session
 	if h.Role == "init" {
-		_, err, p = session(true, jid.MustParse("example.net"), jid.MustParse("me@example.net"), c, state, negotiator(h.Framing, ""))
+		s, err, p = session(true, jid.MustParse("example.net"), jid.MustParse("me@example.net"), c, state, negotiator(h.Framing, ""))
 	} else {
-		_, err, p = session(false, jid.JID{}, jid.JID{}, c, state, negotiator(h.Framing, ""))
+		s, err, p = session(false, jid.JID{}, jid.JID{}, c, state, negotiator(h.Framing, ""))
 	}
 	if p != nil {
-		return "panic", fmt.Sprint(p)
+		return "panic", fmt.Sprint(p), nil
 	}
 	var se stream.Error
 	if err != nil && errors.As(err, &se) && h.Name == "error" {
-		return "streamerror:" + se.Err, errText(err)
+		return "streamerror:" + se.Err, errText(err), nil
 	}
-	if h.Role == "init" {
-		if err == nil {
-			return "accept", ""
+	verdict = "reject"
+	if h.Role == "init" && err == nil || h.Role == "recv" && wroteFeatures(c.WireString()) {
+		verdict = "accept"
+	}
+	if verdict == "accept" && s != nil && v.Info != nil {
+		in := s.In()
+		got := map[string]string{"id": in.ID, "version": in.Version.String(), "from": in.From.String(), "to": in.To.String(), "lang": in.Lang}
+		reply, _ := firstTag(c.WireString())
+		for _, a := range []string{"id", "version", "from", "to", "lang"} {
+			switch v.Info[a] {
+			case "real":
+				want := realValue(h, a)
+				if a == "version" {
+					want = "1.0" // (an accepted header declares the integers 1 and 0, however they are spelled)
+				}
+				if got[a] != want {
+					infoDiffs = append(infoDiffs, fmt.Sprintf("In() %s = %q, the header says %q", a, got[a], realValue(h, a)))
+				}
+			case "notlook":
+				if h.Look[a] == "" || h.Look[a] == "none" {
+					continue
+				}
+				lv := lookValue[a]
+				if got[a] == lv {
+					infoDiffs = append(infoDiffs, fmt.Sprintf("In() %s = %q: the value of the look-alike %s, the header has no %s", a, got[a], lookText(a, h.Look[a]), a))
+				}
+				if a == "from" || a == "to" {
+					if s.RemoteAddr().String() == lv || s.LocalAddr().String() == lv {
+						infoDiffs = append(infoDiffs, fmt.Sprintf("RemoteAddr()/LocalAddr() = %q/%q: the value of the look-alike %s", s.RemoteAddr(), s.LocalAddr(), lookText(a, h.Look[a])))
+					}
+					if h.Role == "recv" && strings.Contains(reply, "'"+lv+"'") {
+						infoDiffs = append(infoDiffs, fmt.Sprintf("the answering header %s carries the value of the look-alike %s", reply, lookText(a, h.Look[a])))
+					}
+				}
+			}
 		}
-		return "reject", errText(err)
 	}
-	if wroteFeatures(c.WireString()) {
-		return "accept", errText(err)
+	return verdict, errText(err), infoDiffs
+}
+
+func lookText(a, l string) string {
+	if l == "nsdecl" {
+		return "xmlns:" + a + "='" + lookValue[a] + "'"
 	}
-	return "reject", errText(err)
+	return "x:" + a + "='" + lookValue[a] + "'"
 }
 
 func acceptOK(v HdrVec, verdict string) bool {
@@ -656,23 +782,29 @@ func main() {
 		sum.Extra["stream_ids_repeated_within_a_scenario"] = sameID
 	case "accept":
 		counts := map[string]int{}
+		infoChecked := 0
 		lines(os.Args[2], func(b []byte) {
 			var v HdrVec
 			if err := json.Unmarshal(b, &v); err != nil {
 				panic(err)
 			}
-			verdict, detail := runAccept(v.In)
+			verdict, detail, infoDiffs := runAccept(v)
 			sum.Evaluations++
 			distinct[hdrBytes(v.In)+v.In.Role+v.In.Framing] = true
 			counts[v.Exp+"->"+strings.SplitN(verdict, ":", 2)[0]]++
-			if !acceptOK(v, verdict) {
-				v2, _ := runAccept(v.In)
-				sum.Mismatches = append(sum.Mismatches, vt.Ev{"vector": v, "bytes": hdrBytes(v.In), "observed": verdict, "detail": detail, "confirmed": v2 == verdict})
+			if verdict == "accept" {
+				infoChecked++
+			}
+			if !acceptOK(v, verdict) || len(infoDiffs) > 0 {
+				v2, _, i2 := runAccept(v)
+				sum.Mismatches = append(sum.Mismatches, vt.Ev{"vector": v, "bytes": hdrBytes(v.In), "observed": verdict, "detail": detail,
+					"info": append([]string{}, infoDiffs...), "confirmed": v2 == verdict && len(i2) == len(infoDiffs)})
 			} else if len(sum.Samples) < 2 && verdict == "accept" && sum.Evaluations%211 == 0 {
 				sum.Samples = append(sum.Samples, vt.Ev{"vector": v, "bytes": hdrBytes(v.In), "observed": verdict})
 			}
 		})
 		sum.Extra["verdicts"] = counts
+		sum.Extra["accepted_headers_whose_recovered_values_were_compared"] = infoChecked
 	default:
 		os.Exit(2)
 	}
